@@ -35,6 +35,10 @@ type C07Case struct {
 	// Arena: the two gene lists are carved from one backing array (1: a's genes first, 2: b's genes first), so the slice
 	// that comes first has spare capacity that reaches into the other list - the distance is a read-only query
 	Arena int `json:"shared_backing_array,omitempty"`
+	// ModsA / ModsB: number of modules (control genes) the genomes carry besides their connection genes; the distance is a
+	// function of the connection genes only, for both methods
+	ModsA int `json:"modules_a,omitempty"`
+	ModsB int `json:"modules_b,omitempty"`
 }
 
 func genMutNum() *rapid.Generator[float64] {
@@ -166,6 +170,9 @@ func GenC07() *rapid.Generator[C07Case] {
 			}
 		}
 		c.Thr = rapid.OneOf(rapid.Just(0.0), rapid.Float64Range(0.01, 5), rapid.Float64Range(1, 100)).Draw(t, "threshold")
+		if rapid.IntRange(0, 5).Draw(t, "modules") == 0 {
+			c.ModsA, c.ModsB = rapid.IntRange(0, 3).Draw(t, "modules a"), rapid.IntRange(0, 3).Draw(t, "modules b")
+		}
 		if rapid.IntRange(0, 5).Draw(t, "arena") == 0 {
 			c.Arena = rapid.IntRange(1, 2).Draw(t, "arena order")
 		}
@@ -176,6 +183,10 @@ func GenC07() *rapid.Generator[C07Case] {
 // compatGenome builds a well-formed genome whose gene list carries the given innovation / mutation numbers: gene
 // with innovation v joins the input node 1 with the hidden node 100+v, so equal innovation numbers denote equal links.
 func compatGenome(id int, list []innovMut, alt ...int) *genetics.Genome {
+	return compatGenomeMods(id, list, 0, alt...)
+}
+
+func compatGenomeMods(id int, list []innovMut, mods int, alt ...int) *genetics.Genome {
 	s := GenomeSpec{Id: id, Traits: []TraitSpec{{Id: 1, Params: make([]float64, neat.NumTraitParams)}}}
 	s.Nodes = append(s.Nodes, NodeSpec{Id: 1, Role: roleInput, Act: 17, Trait: 1}, NodeSpec{Id: 2, Role: roleOutput, Act: 4, Trait: 1})
 	other := map[int]bool{}
@@ -196,6 +207,10 @@ func compatGenome(id int, list []innovMut, alt ...int) *genetics.Genome {
 		}
 		s.Genes = append(s.Genes, g)
 	}
+	_, maxInnov := maxIds(s)
+	for k := 0; k < mods; k++ {
+		s.Modules = append(s.Modules, ModuleSpec{Id: 1000000 + k, Act: 21, Innov: maxInnov + 1 + int64(k), Mut: float64(k), En: k%2 == 0, Ins: []int{1}, Outs: []int{2}})
+	}
 	return s.Build()
 }
 
@@ -213,7 +228,10 @@ func checkDistance(name string, got, ref float64) error {
 }
 
 func CheckC07(c C07Case, rec *Rec) error {
-	a, b := compatGenome(c.IdA, c.A, c.AltA...), compatGenome(c.IdB, c.B, c.AltB...)
+	a, b := compatGenomeMods(c.IdA, c.A, c.ModsA, c.AltA...), compatGenomeMods(c.IdB, c.B, c.ModsB, c.AltB...)
+	if c.ModsA != c.ModsB {
+		rec.Class("genomes with different numbers of modules")
+	}
 	if len(c.AltA)+len(c.AltB) > 0 {
 		rec.Class("equal innovation numbers on different links")
 	}
